@@ -33,6 +33,19 @@ Proof. exact unsupported_loud. Qed.
 Theorem C20_failed_import_not_registered : forall s name src s1 c,
   import_module s name src = (s1, IExc c) -> s1 = s.
 Proof. exact failed_import_not_registered. Qed.
+Theorem C20_declared_enforced : forall s name src e c,
+  active s = true -> get_contracts (m_body src) = [e] -> exec_contract e = CSome c ->
+  import_module s name src =
+    (let r := exec_body s src (if enabled s then [c] else []) in
+     match r with IOk => ({| meta_path := meta_path s; enabled := enabled s; loaded := name :: loaded s |}, IOk) | x => (s, x) end).
+Proof. exact declared_enforced. Qed.
+Theorem C20_print_under_pure_fails : forall s name src e,
+  active s = true -> enabled s = true -> get_contracts (m_body src) = [e] -> exec_contract e = CSome KPure ->
+  run_time_call s src = None -> m_prints src = true ->
+  import_module s name src = (s, IExc "SilentContractError").
+Proof. exact print_under_pure_fails. Qed.
+Print Assumptions C20_declared_enforced.
+Print Assumptions C20_print_under_pure_fails.
 Print Assumptions C20_activate_idempotent.
 Print Assumptions C20_deactivate_inverse.
 Print Assumptions C20_requires_activation.
